@@ -38,6 +38,23 @@ def gen_project(r):
              # a DIFFERENT library under the same relative name one directory down: same import string, other file, other types
              "sub/lib/shared.ucg": "let traceid = TRACE \"sub-shared\";\nlet val = \"seven\";\nlet mk = func (x, y) => [x, y];\nlet only_sub = true;\n",
              "sub/lib/data.txt": "other payload"}
+    if r.random() < 0.2:
+        # the shared library names a file that cannot be loaded, in a place that is never evaluated (an unused function, an
+        # untaken select arm, a module that nobody instantiates): whoever imports the library fails when its imports are
+        # linked, alone and in every batch alike
+        how = r.choice(["syntax", "missing", "type"])
+        files["lib/shared.ucg"] += r.choice([
+            "let lazy = func () => (import \"broken.ucg\").v;\n",
+            "let lazy = select (\"a\", 0) => {a = 1, b = (import \"broken.ucg\").v};\n",
+            "let lazy = module {} => (r) { let r = (import \"broken.ucg\").v; };\n",
+            # one level further down
+            "let lazy = func () => (import \"deeper.ucg\").v;\n",
+        ])
+        files["lib/deeper.ucg"] = "let v = 1;\nlet lazy = func () => (import \"broken.ucg\").v;\n"
+        if how == "syntax":
+            files["lib/broken.ucg"] = "let v = ;\n"
+        elif how == "type":
+            files["lib/broken.ucg"] = "let v = 1 + \"s\";\n"
     roles = {}
     names = []
     for i in range(n):
@@ -268,7 +285,7 @@ def task(args):
                 allnames = sorted(k for k in files if k.endswith(".ucg"))
                 alone_all = alone_outcomes(tp, files, allnames)
                 res.case((json.dumps(files, sort_keys=True), "-r"), nontrivial=True)
-                judge_batch(tp, files, allnames, dict(roles, **{"lib/shared.ucg": "lib-no-out", "sub/lib/shared.ucg": "lib-no-out", "lib/defaults.ucg": "lib-no-out", "defaults.ucg": "lib-no-out", "sub/defaults.ucg": "lib-no-out"}), allnames, alone_all, res, argv_extra=["-r", "."])
+                judge_batch(tp, files, allnames, dict({k: ("syntax-error" if k.endswith("broken.ucg") else "lib-no-out") for k in allnames}, **roles), allnames, alone_all, res, argv_extra=["-r", "."])
         if c < 1 and idx < 2:
             res.sample({"files": files, "roles": roles})
     return res
